@@ -15,6 +15,7 @@ import (
 	"strconv"
 	"strings"
 	"sync"
+	"syscall"
 	"time"
 )
 
@@ -273,6 +274,16 @@ type chunkResult struct {
 // and answers each with one JSON line.
 func WorkerMain(checkID, tier string) {
 	debug.SetMaxStack(64 << 20)
+	// The sandbox has no memory limit of its own: a tree that allocates without bound must kill
+	// this worker (recorded as the failing case), not the machine.
+	memGB := uint64(8)
+	if v := os.Getenv("VMC_WORKER_MEM_GB"); v != "" {
+		if n, err := strconv.ParseUint(v, 10, 64); err == nil && n > 0 {
+			memGB = n
+		}
+	}
+	lim := syscall.Rlimit{Cur: memGB << 30, Max: memGB << 30}
+	syscall.Setrlimit(syscall.RLIMIT_AS, &lim)
 	ck := Lookup(checkID)
 	if ck == nil {
 		fmt.Fprintln(os.Stderr, "unknown check", checkID)
@@ -340,6 +351,7 @@ type Agg struct {
 	Crashes    int
 	abort      bool
 	truncated  int
+	hangs      int
 	Notes      []string
 	Start      time.Time
 	Plan       *Plan
@@ -580,7 +592,7 @@ func (p *workerProc) progress() (int64, uint64) {
 }
 
 // HangLimit is the no-progress time after which a case is nominated as a hang.
-var HangLimit = 120 * time.Second
+var HangLimit = 240 * time.Second
 
 func (a *Agg) workerLoop(w int, plan *Plan, take func() (chunk, bool), mu *sync.Mutex) {
 	var p *workerProc
@@ -673,10 +685,13 @@ func (a *Agg) workerLoop(w int, plan *Plan, take func() (chunk, bool), mu *sync.
 			mu.Lock()
 			a.Crashes++
 			a.AddViolation(v)
-			tooMany := a.Crashes > 200
+			if hang {
+				a.hangs++
+			}
+			tooMany := a.Crashes > 200 || a.hangs >= 6
 			if tooMany && !a.abort {
 				a.abort = true
-				a.Notes = append(a.Notes, "more than 200 worker crashes; exploration stopped early")
+				a.Notes = append(a.Notes, "more than 200 worker crashes (or 6 hangs); exploration stopped early")
 				a.Exhaustive = false
 			}
 			mu.Unlock()
